@@ -176,3 +176,10 @@ Definition m_vpackvs_size (fnames : list Z) (namelen classlen : Z) : Z :=
   2 + 4 + 2 + 2
   + (if 0 <? n then 4 * (2 * n) + fold_right (fun l acc => acc + (2 + vpackvs_fieldname_len16 l)) 0 fnames else 0)
   + (2 + vpackvs_name_len16 namelen) + (2 + vpackvs_class_len16 classlen) + (2 + 2) + (2 + 2) + (2 + 2) + 1.
+
+(** mfsd.c SDsetattr / mfgr.c GRsetattr: an attribute of [count] values of [sz] bytes is accepted (then handed to the
+    attribute list, new name or replacement alike) *)
+Definition m_sdsetattr (sz count : Z) : bool :=
+  negb (truth (sdsetattr_no_values count)) && negb (truth (sdsetattr_too_big count sz)).
+Definition m_grsetattr (sz count : Z) : bool :=
+  negb (truth (grsetattr_too_big count sz)) && (0 <? count).
